@@ -377,6 +377,9 @@ class FullLib(Lib):
     # library calls
     # ==========================================================================================
     def call(self, it, name, args, kwargs):
+        if name.startswith("logging.") and name.split(".")[-1] in (
+                "debug", "info", "warning", "error", "critical", "exception", "log"):
+            return NONE      # a logging function reached through a variable (see DESIGN 2.1)
         m = getattr(self, "c_" + name.replace(".", "_"), None)
         if m is None:
             raise Undecided(f"library call {name} is not modelled")
@@ -892,6 +895,9 @@ class FullLib(Lib):
     # methods on values
     # ==========================================================================================
     def method(self, it, obj, name, args, kwargs):
+        if isinstance(obj, VObj) and obj.cls == "logger" and name in (
+                "debug", "info", "warning", "error", "critical", "exception", "log"):
+            return NONE
         if isinstance(obj, (VStr, VDyn, VOpaque)):
             return self.str_method(it, obj, name, args)
         if isinstance(obj, VList):
@@ -963,6 +969,12 @@ class FullLib(Lib):
                                 it.ctx.assume(z3.Not(ns.f[d].term))
                         elif o.f["action"] == "store":
                             positional = not o.f["flags"][0].startswith("-")
+                            if not isinstance(o.f["default"], VNone):
+                                # an option with a default is never None: it is the given value
+                                # or the default (any value of the type covers both)
+                                if not isinstance(o.f["default"], (VStr, VInt)):
+                                    raise Undecided("argparse default of an unmodelled type")
+                                positional = True
                             if o.f["type"] == "int":
                                 tags = (T_INT,) if positional else (T_NONE, T_INT)
                             elif o.f["type"] is None:
@@ -971,6 +983,14 @@ class FullLib(Lib):
                                 raise Undecided(f"argparse type={o.f['type']}")
                             v = VDyn("opt_" + d, tags)
                             it.ctx.assume(v.domain())
+                            if not isinstance(o.f["default"], VNone):
+                                # ghost: was the option on the command line?  if not, the value
+                                # is the declared default
+                                v.given = z3.Bool("given_" + d)
+                                dv = o.f["default"]
+                                it.ctx.assume(z3.Implies(z3.Not(v.given),
+                                                         (v.s == dv.term) if isinstance(dv, VStr)
+                                                         else (v.i == dv.term)))
                             ns.f[d] = v
                         else:
                             raise Undecided(f"argparse action {o.f['action']}")
